@@ -25,7 +25,8 @@ CONSTANTS Kinds,      \* set of list kinds (tags), e.g. {"COMPU_METHOD","MEASURE
           MaxUid,     \* largest representable uid (2^W - 1)
           CompactAt,  \* renumber when some uid >= CompactAt (only if Compact)
           Compact,    \* BOOLEAN
-          Wrap        \* BOOLEAN: overflow wraps (release) instead of panicking (dev)
+          Wrap,       \* BOOLEAN: overflow wraps (release) instead of panicking (dev)
+          SortKindOrder \* Seq(Kinds): the order in which sort() emits the lists
 
 VARIABLES E,       \* Seq of children: [kind, name, uid, line, cmt]; index = identity
           lists,   \* [Kinds -> Seq(index into E)]: the ItemLists in their current order
@@ -57,7 +58,10 @@ LessW(EE, LL, a, b) ==
     ELSE IF EE[a].line # EE[b].line THEN EE[a].line < EE[b].line
     ELSE IF TagRank(EE, a) # TagRank(EE, b) THEN TagRank(EE, a) < TagRank(EE, b)
     ELSE GroupPos(EE, LL, a) < GroupPos(EE, LL, b)
-WriterOrder(EE, LL) == SortSeq([i \in 1..Len(EE) |-> i], LAMBDA a, b : LessW(EE, LL, a, b))
+\* comments deleted by sort() stay in E (index = identity) with kind "dead" and are not written
+Dead(EE, i) == EE[i].kind = "dead"
+WriterOrder(EE, LL) == SortSeq(SelectSeq([i \in 1..Len(EE) |-> i], LAMBDA i : ~Dead(EE, i)),
+                               LAMBDA a, b : LessW(EE, LL, a, b))
 
 (***************************************************************************)
 (* sort_new_items                                                          *)
@@ -88,10 +92,10 @@ AssignLoop(EE, s, i, lastUid, ovf) ==
 
 \* compaction (the D13 fix): order-preserving renumbering of all non-zero uids of the module
 Compacted(EE) ==
-    LET U == {EE[i].uid : i \in 1..Len(EE)} \ {0} IN
+    LET U == {EE[i].uid : i \in {j \in 1..Len(EE) : ~Dead(EE, j)}} \ {0} IN
     [i \in 1..Len(EE) |-> IF EE[i].uid = 0 THEN EE[i]
                           ELSE [EE[i] EXCEPT !.uid = Cardinality({u \in U : u <= EE[i].uid})]]
-NeedCompact(EE) == Compact /\ \E i \in 1..Len(EE) : EE[i].uid >= CompactAt
+NeedCompact(EE) == Compact /\ \E i \in 1..Len(EE) : ~Dead(EE, i) /\ EE[i].uid >= CompactAt
 
 RECURSIVE SortKinds(_, _, _, _)
 \* process the lists kind by kind (any order: the lists are independent)
@@ -121,16 +125,16 @@ SortNewResult(EE, LL) ==
 Inv(s) == [x \in Range(s) |-> CHOOSE i \in 1..Len(s) : s[i] = x]
 \* placed = had a position (uid # 0) before the call; comments are always placed
 IdealSortNew(EE, before, after) ==
-    \A pb \in {Inv(before)}, pa \in {Inv(after)}, P \in {{i \in 1..Len(EE) : EE[i].uid # 0}} :
+    \A pb \in {Inv(before)}, pa \in {Inv(after)}, P \in {{i \in Range(before) : EE[i].uid # 0}} :
     /\ Range(after) = Range(before) /\ Len(after) = Len(before)
     /\ \A a, b \in P : (pb[a] < pb[b]) <=> (pa[a] < pa[b])                  \* PlacedOrderStable
-    /\ \A e \in (1..Len(EE)) \ P :                                         \* NewGoesAfterLastOfKind
+    /\ \A e \in Range(before) \ P :                                        \* NewGoesAfterLastOfKind
          \A sameKind \in {{p \in P : ~EE[p].cmt /\ EE[p].kind = EE[e].kind}} :
          IF sameKind = {}
          THEN \A x \in P : pa[x] < pa[e]                  \* trailing run: no placed child follows
          ELSE \A L \in {CHOOSE p \in sameKind : \A q \in sameKind : pa[q] <= pa[p]} :
               /\ pa[L] < pa[e]
-              /\ \A x \in 1..Len(EE) : (pa[L] < pa[x] /\ pa[x] < pa[e]) =>
+              /\ \A x \in Range(before) : (pa[L] < pa[x] /\ pa[x] < pa[e]) =>
                      (x \notin P /\ EE[x].kind = EE[e].kind)
 
 (***************************************************************************)
@@ -181,6 +185,47 @@ SortNewItems ==
        ELSE /\ E' = r.E /\ lists' = r.lists /\ UNCHANGED panic
     /\ last' = [op |-> "sort_new_items"]
 
+(***************************************************************************)
+(* sort(): every list is sorted by name and the uids are handed out list   *)
+(* by list in SortKindOrder starting at `start` (4 + number of module      *)
+(* level IF_DATA); module comments are deleted.                            *)
+(***************************************************************************)
+LessName(EE, a, b) == EE[a].name < EE[b].name
+RECURSIVE SortFullLoop(_, _, _, _)
+SortFullLoop(EE, LL, ks, uid) ==
+    IF ks = <<>> THEN [E |-> EE, lists |-> LL]
+    ELSE LET k == Head(ks)
+             sorted == SortSeq(LL[k], LAMBDA a, b : LessName(EE, a, b))
+             E2 == [i \in 1..Len(EE) |->
+                      IF i \in Range(sorted) THEN [EE[i] EXCEPT !.uid = uid + PosIn(sorted, i) - 1] ELSE EE[i]]
+         IN SortFullLoop(E2, [LL EXCEPT ![k] = sorted], Tail(ks), uid + Len(sorted))
+SortFullResult(EE, LL, start) ==
+    LET E1 == [i \in 1..Len(EE) |-> IF EE[i].cmt THEN [EE[i] EXCEPT !.kind = "dead"] ELSE EE[i]]
+    IN SortFullLoop(E1, LL, SortKindOrder, start)
+
+SortFull(start) ==
+    /\ ~panic
+    /\ LET r == SortFullResult(E, lists, start) IN E' = r.E /\ lists' = r.lists
+    /\ UNCHANGED panic
+    /\ last' = [op |-> "sort"]
+
+\* C14 on the written order: same elements, grouped by kind, ascending names inside a kind
+IdealSortFull(EE, before, after) ==
+    \A pa \in {Inv(after)} :
+    /\ Range(after) = {i \in Range(before) : ~EE[i].cmt}
+    /\ \A a, b \in Range(after) :
+          /\ (EE[a].kind = EE[b].kind /\ EE[a].name < EE[b].name) => pa[a] < pa[b]
+          /\ (EE[a].kind = EE[b].kind /\ pa[a] < pa[b]) =>
+                 \A x \in Range(after) : (pa[a] < pa[x] /\ pa[x] < pa[b]) => EE[x].kind = EE[a].kind
+SortFullStepIdeal ==
+    [][(last'.op = "sort") => IdealSortFull(E, WriterOrder(E, lists), WriterOrder(E', lists'))]_vars
+\* sorting twice = sorting once (on the written order and on the list orders)
+SortFullIdempotent ==
+    [][(last'.op = "sort") =>
+          \A r \in {SortFullResult(E', lists', 4)} :
+              /\ r.lists = lists'
+              /\ WriterOrder(r.E, r.lists) = WriterOrder(E', lists')]_vars
+
 \* properties
 NoPanic == ~panic
 SortStepIdeal ==
@@ -190,7 +235,7 @@ SortStepIdeal ==
 InsertKeepsOrder ==
     [][(last'.op \in {"push_new", "merge_in"}) =>
           \A pb \in {Inv(WriterOrder(E, lists))}, pa \in {Inv(WriterOrder(E', lists'))} :
-          \A x, y \in 1..Len(E) : (pb[x] < pb[y]) <=> (pa[x] < pa[y])]_vars
+          \A x, y \in DOMAIN pb : (pb[x] < pb[y]) <=> (pa[x] < pa[y])]_vars
 \* a second call without new children changes nothing in the written order
 UidsBounded == \A i \in Ids : E[i].uid <= MaxUid
 =============================================================================
